@@ -137,6 +137,20 @@ theorem C07_pool_gen :
     Gen.poolPrimitives.all (fun p => (p.2.2.1 = 1 ∧ p.2.2.2 = 0) ∨ (p.2.2.1 = 0 ∧ p.2.2.2 = 1)) = true ∧
     (Gen.poolUsers.map (·.1)).contains "diam:Message.WriteToStreamWithRetry" = true := by decide
 
+/-- (capacities of pooled buffers) `MessageBufferLength` is a variable of the application's. With
+    the capacity check in `newWriterBuffer` (`C07_pool_cap_gen`), for EVERY sequence of
+    assignments to it and of writes of any sizes, every write is given a buffer that holds its
+    message - so the message is serialised whole (C03_serialize_fits) and handed to the Conn -/
+theorem C07_pool_capacity (es : List CapEv) (p : CapPool) : (CapPool.run true p es).2 = true :=
+  CapPool_run_ok es p
+
+/-- without the check (the source before 2ad7047, F23): a small write, the length is raised, a
+    write between the two lengths is given the old, short buffer -/
+theorem C07_pool_capacity_counterexample :
+    (CapPool.run false { len := 1024 } [.use 100, .setLen 4096, .use 1500]).2 = false := by decide
+
+theorem C07_pool_cap_gen : Gen.writerBufferReuseCond = "(cap(b.Bytes())>=min)" := by decide
+
 /-- non-vacuity: three calls, the third reuses the buffer the first handed back -/
 example : ((Pool.run 1 {} [.acquire 0, .acquire 1, .release 0, .acquire 2]).map (fun p => (p.held, p.free, p.next))) =
     some ([(2, 0), (1, 1)], [], 2) := by decide
